@@ -14,7 +14,8 @@ CONSTANTS Family,          \* which event alphabet (one per property family)
           CfgRole, CfgBS, CfgChunk, CfgPersist, CfgResetOnLogon, CfgResetOnLogout,
           CfgResetOnDisconnect, CfgCheckLatency, CfgHbOverride,
           MaxIn, MaxOut,   \* counters explored up to these values
-          MaxEp            \* store resets explored
+          MaxEp,           \* store resets explored
+          MaxStash         \* early messages kept at a time
 
 VARIABLES eng,             \* the Engine record (with the logs of the last step)
           aux,             \* monitor memory (Monitors!AuxInit / AuxNext)
@@ -95,11 +96,21 @@ LifeEvents ==
     \cup {In([PossDup(R("4", rs)) EXCEPT !.gf = "Y", !.rn = rn]) : rs \in {-1, 0}, rn \in {-1, 0, 2}}
     \cup {Pre(R("D", 0)), Pre(R("5", 0)), Pre(R("0", 0)), Pre([R("1", 0) EXCEPT !.trid = "T1"])}
 
+\* ---- family "reset": C07 (a slice of "life" without buffered frames and application sends)
+ResetEvents ==
+    {K("Connect"), K("Disconnected"), K("Stop"), T("LogonTimeout"), T("LogoutTimeout")}
+    \cup {In([R("A", rs) EXCEPT !.rsf = f]) : rs \in {-1, 0}, f \in {"none", "Y", "N"}} \cup {In(R("A", 1))}
+    \cup {In([R("A", 0) EXCEPT !.cid = "wrong"])}
+    \cup {In(R("5", rs)) : rs \in {-1, 0, 1}}
+    \cup {In(R("D", 0)), In(R("0", 0))}
+    \cup {In([R("4", rs) EXCEPT !.rn = rn]) : rs \in {-2, 0, 2}, rn \in {-1, 0, 1, 2}}
+    \cup {In([PossDup(R("4", rs)) EXCEPT !.gf = "Y", !.rn = rn]) : rs \in {-1, 0}, rn \in {-1, 0, 2}}
+
 \* ---- family "keep": C20 (keep-alive)
 KeepEvents ==
     {K("Connect"), K("Disconnected"), T("PeerTimeout"), T("NeedHeartbeat"), K("Flush"), Snd("b1", FALSE, FALSE)}
     \cup {In([R("A", 0) EXCEPT !.hb = h]) : h \in {1, 30}}
-    \cup {In([R("1", rs) EXCEPT !.trid = id]) : rs \in {0, 1}, id \in {"T1", "T2", ""}}
+    \cup {In([R("1", 0) EXCEPT !.trid = id]) : id \in {"T1", "T2", ""}} \cup {In([R("1", 1) EXCEPT !.trid = "T1"])}
     \cup {In(R("0", 0)), In(R("D", 0)), In(R("D", 2)), In(PossDup(R("D", -1))), In(R("garbled", 0))}
     \cup {In(PossDup(R("D", 0))), In([PossDup(R("4", 0)) EXCEPT !.gf = "Y", !.rn = 1])}
     \cup {In([PossDup(R("4", 0)) EXCEPT !.gf = "Y", !.rn = 2])}
@@ -114,6 +125,7 @@ ResendEvents ==
 Alphabet == CASE Family = "seq" -> SeqEvents
               [] Family = "gate" -> GateEvents
               [] Family = "life" -> LifeEvents
+              [] Family = "reset" -> ResetEvents
               [] Family = "keep" -> KeepEvents
               [] Family = "resend" -> ResendEvents
 
@@ -127,7 +139,7 @@ Enabled(s, ev) ==
     /\ ev.k = "Consume" => s.inbuf # <<>>
     /\ ev.k = "Send" => s.nOut < MaxOut
 
-Bounded(s) == s.nIn <= MaxIn /\ s.nOut <= MaxOut /\ s.ct <= MaxEp
+Bounded(s) == s.nIn <= MaxIn /\ s.nOut <= MaxOut /\ s.ct <= MaxEp /\ Cardinality(DOMAIN s.cur.stash) <= MaxStash
 
 ObsOf(s0, ev, s1) == Obs(Post(s0), ev, s1.out, s1.cb, s1.tm, Post(s1), s1.cfg)
 
